@@ -147,7 +147,11 @@ def readNResults (n : Node) : Option Int :=
   | .elem _ [] tc =>
     if !(isC "nresults" n && tc.all isText) then none else
     let ds := (chardata tc).toList
-    if ds.isEmpty then none else (Std.Decimal.readDigits 0 ds).map Int.ofNat
+    -- a positive number of results (RFC 6352 §10.6.1 by way of RFC 5323: a limit of zero is not a limit)
+    if ds.isEmpty then none else
+    match Std.Decimal.readDigits 0 ds with
+    | some v => if v = 0 then none else some (Int.ofNat v)
+    | none => none
   | _ => none
 
 def readLimit (n : Node) : Option Int :=
